@@ -185,12 +185,26 @@ Eval(t, p, mode) ==
 (* that is not accepted but lies in this set is reported under the stable key                              *)
 (* iter/<op>/continues-after-operand-error, with                                                           *)
 (*   div   the concat operators that went on ("~hidden" when the failure could not be seen at the         *)
-(*         operand: it happened behind a bare channel or an eager conversion, which drop the error),      *)
+(*         operand: it happened behind a bare channel or an eager conversion, which drop the error;       *)
+(*         "unjson~closehook" when UnmarshalJSON, which joins onto the iterator's own producer, met a     *)
+(*         failure that only the operand's Close() hook reports: Buffer, Chain),                          *)
 (*   fail  the result carries a user error (possibly one that a concat operator went past),               *)
-(*   vis   that error is reported by the Close() of this node's iterator.                                 *)
+(*   vis   how that error can be seen at this node's iterator: "raw" returned by its own producer,       *)
+(*         "close" only reported by its Close() (channel-backed iterators with a close hook),            *)
+(*         "hid" not at all.                                                                              *)
 (* Anything else that differs from the accepted outputs is an unclassified sequence mismatch.             *)
 Hides == {"split1", "channel", "bufchannel", "listrt", "stackrt", "slicert", "jsonrt"}
 N(seq, fail, vis, div, done) == [seq |-> seq, fail |-> fail, vis |-> vis, div |-> div, done |-> done]
+
+\* visibility of an operand's failure at the result of a concat operator: Producer.Join returns it,
+\* Chain's pipe is a channel with a close hook, UnmarshalJSON keeps the iterator it was called on
+VisThrough(op, v) == IF v = "hid" THEN "hid" ELSE IF op = "chain" THEN "close" ELSE IF op = "join" THEN "raw" ELSE v
+\* Join / Chain read their operands with readOrFail / Close(): they see "raw" and "close" failures;
+\* UnmarshalJSON joins onto the operand's own producer: it sees "raw" failures only
+DivKey(op, v) == IF v = "hid" THEN op \o "~hidden"
+                 ELSE IF op = "unjson" /\ v = "close" THEN "unjson~closehook" ELSE op
+\* a derived iterator that reads its source with readOrFail returns the source's failure from its own producer
+Raise(v) == IF v = "hid" THEN "hid" ELSE "raw"
 
 RECURSIVE NSet(_, _), NCat(_, _, _, _)
 
@@ -201,35 +215,36 @@ NCat(rsets, i, accs, op) ==
              IF acc.done THEN {acc}
              ELSE LET sq == acc.seq \o r.seq
                       fl == acc.fail \/ r.fail
-                      vs == IF r.fail THEN r.vis ELSE acc.vis
+                      vs == IF r.fail THEN VisThrough(op, r.vis) ELSE acc.vis
                       dv == acc.div \cup r.div IN
                   IF r.fail /\ ~last
                     THEN {N(sq, TRUE, vs, dv, TRUE),
-                          N(sq, TRUE, vs, dv \cup {IF r.vis \/ op = "unjson" THEN op ELSE op \o "~hidden"}, FALSE)}
+                          N(sq, TRUE, vs, dv \cup {DivKey(op, r.vis)}, FALSE)}
                     ELSE {N(sq, fl, vs, dv, FALSE)} IN
        NCat(rsets, i + 1, UNION {step(acc, r) : acc \in accs, r \in rsets[i]}, op)
 
 NSet(t, p) ==
   LET kid(i) == NSet(t.kids[i], Child(p, i))
-      lift(f(_)) == {[r EXCEPT !.seq = f(r.seq)] : r \in kid(1)}
+      lift(f(_)) == {[r EXCEPT !.seq = f(r.seq), !.vis = Raise(@)] : r \in kid(1)}
       undone(S) == {[r EXCEPT !.done = FALSE] : r \in S} IN
-  CASE t.op \in {"slice", "variadic", "chan", "list"} -> {N(t.data, FALSE, TRUE, {}, FALSE)}
-    [] t.op \in {"mslices", "msi"} -> {N(Flatten(t.datas), FALSE, TRUE, {}, FALSE)}
-    [] t.op = "gen" -> LET f == Faulted(t.data, t.fault, t.k) IN {N(f.seq, f.hit, TRUE, {}, FALSE)}
+  CASE t.op \in {"slice", "variadic", "chan", "list"} -> {N(t.data, FALSE, "raw", {}, FALSE)}
+    [] t.op \in {"mslices", "msi"} -> {N(Flatten(t.datas), FALSE, "raw", {}, FALSE)}
+    [] t.op = "gen" -> LET f == Faulted(t.data, t.fault, t.k) IN {N(f.seq, f.hit, "raw", {}, FALSE)}
     [] t.op = "filter" -> lift(LAMBDA s : FilterSeq(t.fn, s))
     [] t.op \in {"map", "convert"} ->
          {LET f == Faulted(r.seq, t.fault, t.k) IN
-          IF f.hit THEN N(MapSeq(t.fn, f.seq), TRUE, TRUE, r.div, FALSE) ELSE [r EXCEPT !.seq = MapSeq(t.fn, f.seq)]
+          IF f.hit THEN N(MapSeq(t.fn, f.seq), TRUE, "raw", r.div, FALSE)
+          ELSE [r EXCEPT !.seq = MapSeq(t.fn, f.seq), !.vis = Raise(@)]
           : r \in kid(1)}
-    [] t.op = "buffer"   -> kid(1)
-    [] t.op \in Hides \ {"stackrt"} -> {[r EXCEPT !.vis = FALSE] : r \in kid(1)}
-    [] t.op = "stackrt"  -> {[r EXCEPT !.seq = Reverse(r.seq), !.vis = FALSE] : r \in kid(1)}
+    [] t.op = "buffer"   -> {[r EXCEPT !.vis = IF @ = "hid" THEN "hid" ELSE "close"] : r \in kid(1)}
+    [] t.op \in Hides \ {"stackrt"} -> {[r EXCEPT !.vis = "hid"] : r \in kid(1)}
+    [] t.op = "stackrt"  -> {[r EXCEPT !.seq = Reverse(r.seq), !.vis = "hid"] : r \in kid(1)}
     [] t.op = "uniq"     -> lift(DedupeFirst)
     [] t.op = "dropzero" -> lift(DropZero)
     [] t.op = "indexed"  -> lift(Enumerate)
-    [] t.op = "unjson"   -> undone(NCat(<<kid(1), {N(t.data, FALSE, TRUE, {}, FALSE)}>>, 1, {N(<<>>, FALSE, TRUE, {}, FALSE)}, "unjson"))
+    [] t.op = "unjson"   -> undone(NCat(<<kid(1), {N(t.data, FALSE, "raw", {}, FALSE)}>>, 1, {N(<<>>, FALSE, "raw", {}, FALSE)}, "unjson"))
     [] t.op \in {"join", "chain"} ->
-         undone(NCat([i \in 1..Len(t.kids) |-> kid(i)], 1, {N(<<>>, FALSE, TRUE, {}, FALSE)}, t.op))
+         undone(NCat([i \in 1..Len(t.kids) |-> kid(i)], 1, {N(<<>>, FALSE, "raw", {}, FALSE)}, t.op))
 
 --------------------------------------------------------------------------
 \* reduce root: fold with +, the reducer has its own fault
